@@ -1065,6 +1065,10 @@ def cli_cases(g, group, thorough):
                 exps.append("CX : 0x%04X" % wv)
             src = "\n".join(lines + body) + "\n"
             out.append(("-", src, "") + tuple(exps))
+    elif group == "deep":
+        # deep (but tractable) recursion that unwinds completely; depths beyond about 10^5 pending calls exceed the
+        # model's step budget and the watchdog and are NOT explored (see seeded/Y3B: recorded limitation)
+        out.append(("-", "def down {\ndec cx\njz bottom\ncall down\nbottom:\n}\nstart:\nmov cx, 3000\ncall down\nmov bx, 1\nprint reg\n", "", "BX : 0x0001"))
     elif group == "strings":
         # C07 through the real run loop: every string mnemonic x width x DF x prefix, driven by the binary's own
         # REPEAT handling to completion; conditional repeats over data that stops them early, late or never
